@@ -15,6 +15,7 @@ Soundness stance: values loaded from memory that may have been written through a
 reference, or a store through a deref) are forgotten; cells under a shared reference (`&T`) are stable for the
 duration of the body (no interior mutability: C15-R1).  Unknown callees return TOP of their type.
 """
+import re
 from mir import INT_TYPES, Body, body_of, callee_path, op_const, op_place, place_key, strip_generics
 
 INF = float("inf")
@@ -92,6 +93,7 @@ class Interp:
         self.post_cells = {}                 # (param, suffix) -> (lo, hi): integer cells below `&mut` parameters at every return
         self.entry_cells = (param_iv or {}).get("#cells") or {}
         self.ret_cells = {}                  # path -> (lo, hi, prov) joined over return blocks
+        self.ok_posts = None                 # (param, suffix) -> (lo, hi, ub provenance, ty) on every Ok/Some-returning path
         self.hooks = hooks or {}
         self.field_inv = field_inv or {}     # (adt path, field) -> (lo, hi): invariant of crate-produced values
         self.mut_ref_locals = self._mut_ref_locals()
@@ -1018,12 +1020,57 @@ class Interp:
             return {v.get("discr", v["idx"]): v["name"] for v in a["variants"]}
         return None
 
+    def note_ok_posts(self, st, path, args, dest, at):
+        """remember, as facts keyed by the call's result, what `Ok` will say about the arguments"""
+        okp = (self.summaries.get("#okposts") or {}).get(path)
+        if not okp:
+            return
+        for (pi, suffix), (lo, hi, ub, ty) in okp.items():
+            if pi - 1 >= len(args):
+                continue
+            a = args[pi - 1]
+            if not suffix:
+                sid = self.read_op(st, a, at)[0]
+            else:
+                tgt = self.ref_target(st, a)
+                sid = st.cells.get(tgt + suffix) if tgt is not None else None
+                if sid is None and tgt is not None:
+                    rng = ty_range(ty or "")
+                    if rng is None:
+                        continue
+                    sid = self.new_sym(("okpost", at, pi, suffix), rng[0], rng[1], frozenset(["F:" + "".join(suffix)]), None, ty)
+                    st.iv[sid] = rng
+                    st.cells[tgt + suffix] = sid
+            if sid is None:
+                continue
+            ubp = None
+            if ub:
+                # translate the callee's parameter roots into the provenance of the actual arguments
+                ubp = set()
+                for r in ub:
+                    m_ = re.match(r"P(\d+)$", r)
+                    if m_ and int(m_.group(1)) - 1 < len(args):
+                        ubp |= set(self.read_op(st, args[int(m_.group(1)) - 1], at)[3])
+                    else:
+                        ubp.add(r)
+            st.facts.add(("ok_refine", dest, (sid, lo, hi, frozenset(ubp) if ubp else None)))
+
     def learn_variant(self, st, key, var, depth=0):
         st.facts.add(("variant", key, var))
         if depth > 8 or var not in ("Some", "Ok", "Continue"):
             return
         for f in list(st.facts):
             if f[1] != key:
+                continue
+            if f[0] == "ok_refine":
+                sid_, lo_, hi_, ub_ = f[2]
+                cur = self.iv(st, sid_)
+                if cur[0] is not None:
+                    nlo, nhi = max(cur[0], lo_), min(cur[1], hi_)
+                    if nlo <= nhi:
+                        st.iv[sid_] = (nlo, nhi)
+                if ub_ and not _size_derived(st.ub.get(sid_) or ()):
+                    st.ub[sid_] = ub_
                 continue
             if f[0] == "implies":
                 if ("variant", f[2], f[3]) not in st.facts:
@@ -1347,6 +1394,7 @@ class Interp:
             for sub in summ:
                 if sub and sub[0] == "#fact":
                     st.facts.add(("variant", dest, sub[1]))
+            self.note_ok_posts(st, path, args, dest, at)
             return "summary"
         # --- ? desugaring
         if p == "core::ops::try_trait::Try::branch":
@@ -1741,6 +1789,8 @@ class Interp:
             self.set_dest(st, dest, (), rng[0], rng[1], prov, at, None, dty)
         else:
             self.set_dest(st, dest, (), None, None, prov, at, None, dty)
+        if path in self.fx.fns:
+            self.note_ok_posts(st, path, args, dest, at)
         return None
 
     # ---- return summary ------------------------------------------------------------------------
@@ -1753,6 +1803,41 @@ class Interp:
             if lo is None:
                 continue
             seen[k[1:]] = (lo, hi, self.syms[sid].prov)
+        # what an Ok / Some result tells the caller about the arguments (a validating helper: `check(x, size)?`): per
+        # by-value integer parameter and per integer field below a reference parameter, the interval on every Ok-returning
+        # path and the provenance of its upper bound
+        self._record_return_rest(st, seen)
+
+    def collect_ok_posts(self, st):
+        if True:
+            okp = {}
+            for k, sid in st.cells.items():
+                l = k[0]
+                if not (isinstance(l, int) and 1 <= l <= self.body.argc):
+                    continue
+                if len(k) == 1:
+                    key_ = (l, ())
+                elif len(k) > 2 and k[1] == "deref" and not any(isinstance(x, str) and x.startswith("[_") for x in k) and not self.local_ty(l).startswith("&mut "):
+                    key_ = (l, k[2:])
+                else:
+                    continue
+                lo, hi = self.iv(st, sid)
+                rng = ty_range(self.syms[sid].ty or "")
+                if lo is None or rng is None:
+                    continue
+                ub = st.ub.get(sid)
+                okp[key_] = (lo, hi, frozenset(ub) if ub else None, self.syms[sid].ty)
+            if self.ok_posts is None:
+                self.ok_posts = okp
+            else:
+                merged = {}
+                for k_, a_ in self.ok_posts.items():
+                    if k_ in okp:
+                        b_ = okp[k_]
+                        merged[k_] = (min(a_[0], b_[0]), max(a_[1], b_[1]), (a_[2] | b_[2]) if (a_[2] and b_[2]) else None, a_[3])
+                self.ok_posts = merged
+
+    def _record_return_rest(self, st, seen):
         posts = {}
         for k, sid in st.cells.items():
             l = k[0]
@@ -2051,6 +2136,7 @@ class Interp:
         self._ret_seen = False
         self.ret_cells = {}
         self.post_cells = {}
+        self.ok_posts = None
         self.out_states = {}
         for b in self.body.rpo():
             st0 = self.in_states.get(b)
@@ -2065,6 +2151,9 @@ class Interp:
                 elif s["k"] == "setdiscr":
                     self.kill(st, place_key(s["place"]))
             self.out_states[b] = st
+            # a block that builds the success value: what holds here about the parameters holds whenever Ok / Some is returned
+            if any(s_["k"] == "assign" and s_["place"]["l"] == 0 and not s_["place"]["p"] and s_["rv"]["k"] == "agg" and s_["rv"].get("variant") in ("Ok", "Some") for s_ in self.body.stmts(b)):
+                self.collect_ok_posts(st)
             if self.hooks.get("term"):
                 self.hooks["term"](self, st, b, self.body.term(b))
             self.successors(st, b)
